@@ -79,8 +79,13 @@ def match_known(pid, v, known):
     return None
 
 
+def out_root():
+    """where evidence/ and replays/ go; VERIF_OUT_DIR redirects them (development runs against patched scratch trees)"""
+    return os.environ.get("VERIF_OUT_DIR", VERIF)
+
+
 def write_replay(pid, v, seed):
-    d = os.path.join(VERIF, "replays", pid)
+    d = os.path.join(out_root(), "replays", pid)
     os.makedirs(d, exist_ok=True)
     body = {"property": pid, "signature": v["signature"], "seed": seed, "message": v.get("message"),
             "case": v.get("case"), "expected": v.get("expected"), "observed": v.get("observed"),
@@ -104,8 +109,8 @@ def write_evidence(mod, tier, seed, merged, wall, nviol, extra_cov=None):
         cov.update(extra_cov)
     ev = {"property_id": mod.ID, "tier": tier, "seed": seed, "level": mod.LEVEL, "coverage": cov,
           "assumptions": list(getattr(mod, "ASSUMPTIONS", [])), "wall_s": round(wall, 2), "violations": nviol}
-    os.makedirs(os.path.join(VERIF, "evidence"), exist_ok=True)
-    p = os.path.join(VERIF, "evidence", mod.ID + ".json")
+    os.makedirs(os.path.join(out_root(), "evidence"), exist_ok=True)
+    p = os.path.join(out_root(), "evidence", mod.ID + ".json")
     with open(p + ".tmp", "w") as f:
         json.dump(ev, f, indent=1, default=str)
     os.replace(p + ".tmp", p)
